@@ -19,8 +19,13 @@ def relations(ctx, inputs, rows, st, case):
     exp = {"reaction_cnt": len(inputs), "balanced_cnt": by["input-balanced"], "confident_cnt": n_mcs_solved_rows,
            "mcs_applied": len(rows) - early}
     for k, v in exp.items():
-        if st.get(k) != v:
-            kind = "rows-lost-batch-not-counted" if len(rows) != len(inputs) else "statistic-disagrees-with-rows"
+        rep = st.get(k)
+        if rep is None and len(rows) != len(inputs):
+            rep = 0            # every batch of the run was lost: no statistics were merged at all
+        if rep != v:
+            # the known mechanism concerns reaction_cnt only (inputs of a lost batch / filtered rows are not counted); the other
+            # counters are compared with the rows that DID come back and must agree with them even then
+            kind = "rows-lost-batch-not-counted" if (len(rows) != len(inputs) and k == "reaction_cnt") else "statistic-disagrees-with-rows"
             ctx.fail(kind, case, {"statistic": k, "reported": st.get(k), "from_rows": v})
     if st.get("rb_solved", 0) > st.get("rb_applied", 0) or st.get("mcs_solved", 0) > st.get("mcs_applied", 0):
         ctx.fail("solved-exceeds-applied", case, {"stats": st})
